@@ -564,10 +564,79 @@ class Affine:
                 return self.op_form(st, op)
         return None
 
+    def resolve_place(self, place, limit=24):
+        """Follow a place back through moves, tuple / enum aggregates (matching the projection), `?` (Try::branch:
+        Continue payload = Ok/Some payload) and - for a local with several definitions - the one definition that
+        builds the projected variant.  Returns the simplified place (a local plus the remaining projection)."""
+        b = self.b
+        l, proj = place["l"], [e for e in place["p"]]
+        before_branch = None
+        for _ in range(limit):
+            defs = b.defs_of(l)
+            var = proj[0].get("variant") if proj and isinstance(proj[0], dict) and "variant" in proj[0] else None
+            if len(defs) > 1 and var is not None:
+                defs = [d for d in defs if d[0] == "assign" and d[3].get("agg") == "adt" and d[3].get("variant") == var]
+            if len(defs) != 1:
+                break
+            d = defs[0]
+            if d[0] == "assign":
+                rv = d[3]
+                if "use" in rv:
+                    src = op_place(rv["use"])
+                    if src is None:
+                        break
+                    l, proj = src["l"], list(src["p"]) + proj
+                    continue
+                if rv.get("agg") == "tuple" and proj and isinstance(proj[0], dict) and "i" in proj[0] and "variant" not in proj[0]:
+                    i = proj[0]["i"]
+                    if i >= len(rv["ops"]):
+                        break
+                    src = op_place(rv["ops"][i])
+                    if src is None:
+                        break
+                    l, proj = src["l"], list(src["p"]) + proj[1:]
+                    continue
+                if rv.get("agg") == "adt" and var is not None and rv.get("variant") == var and len(proj) >= 2 and isinstance(proj[1], dict) and "i" in proj[1]:
+                    i = proj[1]["i"]
+                    if i >= len(rv["ops"]):
+                        break
+                    src = op_place(rv["ops"][i])
+                    if src is None:
+                        break
+                    l, proj = src["l"], list(src["p"]) + proj[2:]
+                    continue
+                if "ref" in rv and (not proj or proj[0] == "deref"):
+                    l, proj = rv["ref"]["l"], list(rv["ref"]["p"]) + (proj[1:] if proj else [])
+                    continue
+                break
+            if d[0] != "call":
+                break
+            t = d[2]
+            if t["callee"]["name"] == "branch" and var == "Continue" and len(proj) >= 2 and t["args"]:
+                a = op_place(t["args"][0])
+                if a is None:
+                    break
+                ty = b.local_ty(a["l"]) if not a["p"] else ""
+                inner = "Ok" if ty.startswith("std::result::Result<") else "Some" if ty.startswith("std::option::Option<") else None
+                if inner is None:
+                    break
+                before_branch = (l, list(proj))
+                l, proj = a["l"], list(a["p"]) + [{"variant": inner, "vi": 0 if inner == "Ok" else 1}] + proj[1:]
+                continue
+            break
+        # stepping through `?` only pays off when the tested value was built here (an aggregate); a `?` on a call result is
+        # left as it is written, so that both sides of a comparison keep the same spelling
+        if before_branch is not None and proj and isinstance(proj[0], dict) and proj[0].get("variant") in ("Ok", "Some"):
+            l, proj = before_branch
+        return {"l": l, "p": proj}
+
     def _slice_len(self, st, op):
         p = op_place(op)
         if p is None:
             return None
+        rp = self.resolve_place(p)
+        if all(e == "deref" for e in rp["p"]):
+            p = {"l": rp["l"], "p": []}
         # slice produced by an index call in this body?
         l = p["l"]
         seen = 0
